@@ -234,7 +234,9 @@ func (e *Engine) Load(name string) (*Template, error) {
 			// If auto-reload is enabled, check if the template has been modified
 			needsReload := false
 
-			if tmpl.loader != nil {
+			// (a template that was registered under this name but loaded under
+			// another one is a registration: its loader does not know this name)
+			if tmpl.loader != nil && tmpl.name == name {
 				// Check if the loader supports timestamp checking
 				if tsLoader, ok := tmpl.loader.(TimestampAwareLoader); ok {
 					// Get the current modification time
